@@ -76,7 +76,7 @@ def features(plan):
     f = []
     if "'include'" in text:
         f.append('include')
-    if "'vars0'" in text:
+    if "'vars0'" in text or "'vars1'" in text:
         f.append('data-expression-with-variables')
     elif "'dataFilter'" in text or "'dataCalculatedField'" in text:
         f.append('data-expression')
